@@ -414,15 +414,6 @@ Proof.
   assert (Hhd : match map ALit args ++ map snd (kmapL kws) with a :: _ => arg1_to_json T X cast a | [] => Err IndexError end
               = match args ++ map snd kws with a :: _ => arg0_to_json X cast a | [] => Err IndexError end).
   { destruct args as [|a r]; [destruct kws as [|[k' a] r]|]; reflexivity. }
-  assert (Hloop : forall kws : list (string * pyval),
-     (fix go (kws : list (string * arg1)) : res (list (pyval * pyval)) := match kws with
-        | [] => Ok []
-        | (k', a) :: r => let* x := arg1_to_json T X cast a in let* r' := go r in Ok ((VStr k', x) :: r') end) (kmapL kws)
-     = (fix go (kws : list (string * pyval)) : res (list (pyval * pyval)) := match kws with
-        | [] => Ok []
-        | (k', a) :: r => let* x := arg0_to_json X cast a in let* r' := go r in Ok ((VStr k', x) :: r') end) kws).
-  { induction kws0 as [|[k' a] r IH]; [reflexivity|].
-    change (kmapL ((k', a) :: r)) with ((k', ALit a) :: kmapL r). lazy beta iota. rewrite IH. reflexivity. }
   assert (Hraw : forall kws : list (string * pyval),
      (fix go (kws : list (string * arg1)) : res (list (pyval * pyval)) := match kws with
         | [] => Ok []
@@ -432,25 +423,27 @@ Proof.
         | (k', a) :: r => let* x := Ok a in let* r' := go r in Ok ((VStr k', x) :: r') end) kws).
   { induction kws0 as [|[k' a] r IH]; [reflexivity|].
     change (kmapL ((k', a) :: r)) with ((k', ALit a) :: kmapL r). lazy beta iota. rewrite IH. reflexivity. }
+  (* arguments written at item level (several parameters, values of a keyword mapping, *args) *)
   assert (Hitem : forall kws : list (string * pyval),
      (fix go (kws : list (string * arg1)) : res (list (pyval * pyval)) := match kws with
         | [] => Ok []
         | (k', a) :: r =>
-            let* x := match arg1_raw a with Ok v => item_to_json X cast v | Err _ => arg1_to_json T X cast a end in
+            let* x := arg_item X arg1 (arg1_to_json T X) arg1_raw cast a in
             let* r' := go r in Ok ((VStr k', x) :: r') end) (kmapL kws)
      = (fix go (kws : list (string * pyval)) : res (list (pyval * pyval)) := match kws with
         | [] => Ok []
         | (k', a) :: r =>
-            let* x := match (fun v : pyval => Ok v) a with Ok v => item_to_json X cast v | Err _ => arg0_to_json X cast a end in
+            let* x := arg_item X pyval (arg0_to_json X) (fun v : pyval => Ok v) cast a in
             let* r' := go r in Ok ((VStr k', x) :: r') end) kws).
   { induction kws0 as [|[k' a] r IH]; [reflexivity|].
     change (kmapL ((k', a) :: r)) with ((k', ALit a) :: kmapL r). lazy beta iota. rewrite IH. reflexivity. }
   assert (Hex : existsb (fun ka : string * arg1 => str_contains "path" (fst ka)) (kmapL kws)
               = existsb (fun ka : string * pyval => str_contains "path" (fst ka)) kws).
   { clear. induction kws as [|[k' a] r IH]; [reflexivity|]. change (kmapL ((k', a) :: r)) with ((k', ALit a) :: kmapL r). cbn [existsb fst]. rewrite IH. reflexivity. }
-  assert (HmapM : mapM (arg1_to_json T X cast) (map ALit args) = mapM (arg0_to_json X cast) args).
+  assert (HmapM : mapM (arg_item X arg1 (arg1_to_json T X) arg1_raw cast) (map ALit args)
+                  = mapM (arg_item X pyval (arg0_to_json X) (fun v : pyval => Ok v) cast) args).
   { clear. induction args as [|a r IH]; [reflexivity|]. cbn [map mapM]. rewrite IH. reflexivity. }
-  rewrite Hhd, Hloop, Hraw, Hitem, Hex, HmapM. reflexivity.
+  rewrite Hhd, Hraw, !Hitem, Hex, HmapM. reflexivity.
 Qed.
 
 Lemma cond_to_json_lit (c : cond pyval) : cond1_to_json T X (cmapL c) = cond0_to_json T X c.
